@@ -548,7 +548,7 @@ MANIFEST_ENTRY = dict(
     technique='contracts on the real Numerics.py functions; VCs generated from the AST, discharged by z3 NRA and an exact ring normaliser; program-algebra obligations for the dispatch closure; bounded run-time contract as complement',
     text='Lagrange exactness of linear/quadratic/cubic/quartic/quintic_extrap is proved for all real inputs (one obligation per formula and '
          'monomial degree); the dispatch of make_extrap_func (which formula for which number of grids, argument order, log/exp wrapping, '
-         'positional/keyword pts, arity error, labels) is decided on every path of the real closure. Round-off, array/Spectrum values, '
+         'positional/keyword pts, arity error, labels; an explicit extrap_x_l paired with the grid sizes for every ordering of them, no_extrap order) is decided on every path of the real closure. Round-off, array/Spectrum values, '
          'ordering independence and the fail_mag fallback are bounded run-time checks, not proofs.',
     note='floats treated as reals; E2 executor semantics (DESIGN.md 4); numpy.log/exp uninterpreted; numpy ufuncs preserve Spectrum.pop_ids (axiom, exercised by the bounded driver); vf/polyring.py normaliser trusted for k=6',
 )
